@@ -104,6 +104,10 @@ def leaf_alphabet(reduced=False):
             add(f'q:arr*{ul}', lambda u=u: np.array([1.0, 2.5]) * u)
         else:
             add(f'q:{ml}*{ul}', lambda m=m, u=u: m * u)
+    # array quantities with exactly one element and with none
+    add('q:arr1*fg', lambda: np.array([2.5]) * units.fg)
+    add('q:arr0*fg', lambda: np.array([]) * units.fg)
+    add('q:arr2d*um', lambda: np.array([[1.0], [2.0]]) * units.um)
     for (ul, u) in unit_list[:3] + unit_list[-2:]:
         add(f'unit:{ul}', lambda u=u: (1 * u).units)
     add('process', lambda: PROC)
@@ -112,6 +116,7 @@ def leaf_alphabet(reduced=False):
         keep = {'int:0', 'float:0.1', 'None', "str:'a'", 'np.float64',
                 'arr:transposed', 'arr:objquant',
                 'arr:float1d', 'q:nan*fg', 'q:-2.25*mg/mL', 'q:arr*um',
+                'q:arr1*fg', 'q:arr0*fg',
                 'unit:fg', 'process'}
         L = [x for x in L if x[0] in keep]
     return L
@@ -430,3 +435,6 @@ def replay(case):
     run_rejects(acc)
     return [v for exs in acc.viol_examples.values() for v in exs
             if v['case'] == case]
+
+RULE += (
+    ' Quantity arrays of every small shape (empty, one element, 1-D, 2-D) keep their structure and units through serialize/deserialize and the emitter; a Unit object stays a Unit (not a quantity of magnitude 1).')
